@@ -960,6 +960,17 @@ func famUnwrap(j *judgeCtx) {
 			return other[:], errors.New("vault says no")
 		}},
 		{"other-kek", func(w []byte, a, n string, nonce, tag []byte) ([]byte, error) { return kekUnwrap(1, w) }},
+		{"empty", func(w []byte, a, n string, nonce, tag []byte) ([]byte, error) { return []byte{}, nil }},
+		{"3-bytes", func(w []byte, a, n string, nonce, tag []byte) ([]byte, error) { return []byte{1, 2, 3}, nil }},
+		{"64-bytes", func(w []byte, a, n string, nonce, tag []byte) ([]byte, error) {
+			return append(append([]byte{}, b.fk...), b.fk...), nil
+		}},
+		{"3-bytes-and-error", func(w []byte, a, n string, nonce, tag []byte) ([]byte, error) {
+			return []byte{1, 2, 3}, errors.New("vault says no")
+		}},
+		{"correct-key-with-error", func(w []byte, a, n string, nonce, tag []byte) ([]byte, error) {
+			return append([]byte{}, b.fk...), errors.New("vault says no")
+		}},
 	}
 	for _, v := range variants {
 		j.judge(&mutant{class: "unwrap", pos: v.name, desc: "unmodified document, unwrap callback returns " + v.name, parts: [][]byte{b.doc}, unwrap: v.fn})
@@ -1368,7 +1379,7 @@ func TestCheck(t *testing.T) {
 		"segment delete/duplicate/append/swap/drop-tail/drop-head for every segment; splices with a same-length document under the same and under another key-encryption key (payload, header, MAC line, manifest, single segment, tag, body); "+
 		"nine misbehaving unwrap callbacks; one-byte insertions (7 values) and deletions at every header offset and at segment landmarks; ~110 semantic header edits (JSON re-encodings that parse to the same values: white space, member order, member-name case, \\u escapes, duplicate and unknown members, unused base64 bits of np/wfk; changes of every field; MAC-line spellings; scheme line; line structure); "+
 		"for non-empty plaintexts every one of these header edits, every single-bit flip and every one-byte insertion/deletion of the header COMBINED with dropping all segments or keeping only the first k payload bytes; "+
-		"sticky source-reader errors at every header offset, around every boundary, mid-segment, in place of the final EOF, each alone (0, err) and together with the last data (n>0, err), and each with every member of an error family (private sentinel, io.ErrUnexpectedEOF plain and wrapped, io.ErrNoProgress, io.ErrClosedPipe, context.Canceled, wrapped os.ErrDeadlineExceeded, a net.Error-like timeout), plus seeded offsets with a seeded member; seeded compound mutations; OVERLAP mode: for the unmodified document and a sample of mutants of every class, the Decrypt stream is read to k bytes (k in {1,10,65535,65546}), then complete other operations run (decrypt of an unrelated valid document, of a tampered one, of attacker-supplied garbage, an Encrypt), then the rest is read - or the stream is given up and closed after three such operations; the outer stream and every inner operation are judged by the same rule (an unmodified document must give exactly its plaintext). "+
+		"sticky source-reader errors at every header offset, around every boundary, mid-segment, in place of the final EOF, each alone (0, err) and together with the last data (n>0, err), and each with every member of an error family (private sentinel, io.ErrUnexpectedEOF plain and wrapped, io.ErrNoProgress, io.ErrClosedPipe, context.Canceled, wrapped os.ErrDeadlineExceeded, a net.Error-like timeout), plus seeded offsets with a seeded member; seeded compound mutations; FORGED documents (after the huge cases): built by refenc under a file key an attacker can guess (all zero, all 0xFF, 32 x 0x01, the wfk bytes, SHA-256 of the manifest or of the wfk, the padded key name) x both ciphers x plaintext lengths {0,1,1000,65536,65537} x wfk field {garbage, short garbage, another valid document's wfk} x 12 unwrap behaviours (honest, error, nil, empty, 3/31/33/64 bytes, that key WITH an error, other keys with and without error): every one must be refused without releasing a byte (an accepted EMPTY forged document is observed, not judged); OVERLAP mode: for the unmodified document and a sample of mutants of every class, the Decrypt stream is read to k bytes (k in {1,10,65535,65546}), then complete other operations run (decrypt of an unrelated valid document, of a tampered one, of attacker-supplied garbage, an Encrypt), then the rest is read - or the stream is given up and closed after three such operations; the outer stream and every inner operation are judged by the same rule (an unmodified document must give exactly its plaintext). "+
 		"Huge tamper cases (after the ordinary ones, each run by one child; quick: AES-GCM, thorough: both ciphers): kit.Encrypt of a generated 4 GiB + 128 KiB + 100 byte plaintext (65539 segments, every one different) is streamed to a scratch file, then (a) segment 65536 is replaced by a copy of segment 0 and (b) segments 1 and 65537 are swapped, the tampered document is streamed through kit.Decrypt and the released bytes are compared position by position with the generator - the only mutants in which segment numbers differ in the upper half of the nonce's 32-bit counter. "+
 		"Every mutant is decrypted by the real kit.Decrypt through an all-at-once or seeded-chunk reader and read to the end. Rule: Decrypt error OR non-EOF stream error OR (bytes == plaintext AND EOF), and the released bytes are a prefix of the plaintext; "+
 		"for a source error an error is mandatory. A payload-less mutant that kit turns into \"\" + clean EOF is classified by the independent implementation (refenc.CheckHeader: does the MAC over the raw first two lines verify?): authentic header = the known format-level finding truncate@header-end/nonempty; header rejected by the reference = a violation with the mutation's own signature; only the MAC-line spelling differs (kit lenient, reference strict) = observed, not judged. Accepted mutants with identical plaintext whose header the reference rejects are counted (accepted_identical_but_header_fails_reference_mac), not judged. Mutants equal to the original are skipped. Evaluations = mutants judged; enumerated families are distinct by construction, seeded compound mutants are keyed by their description; non-trivial = every mutant (it differs from the original or carries a fault).")
@@ -1376,6 +1387,7 @@ func TestCheck(t *testing.T) {
 		"srcerr.surfaced", "truncate.at.segment-boundary", "truncate.at.header-end", "truncate.at.segment-tag", "truncate.at.segment-body", "srcerr.at.final-eof", "srcerr.at.final-eof+data",
 		"rejected_or_identical.seg-swap", "rejected_or_identical.splice-samekek", "rejected_or_identical.splice-otherkek", "rejected_or_identical.unwrap", "rejected_or_identical.extend",
 		"huge.tamper_rejected.seg-replace", "huge.tamper_rejected.seg-swap", "huge.rejected_exactly_at_segment_65536",
+		"forged.documents_judged", "forged.refused_by_decrypt", "forged.unwrap.honest", "forged.unwrap.error", "forged.unwrap.that-key-with-error", "forged.unwrap.64-bytes",
 		"overlap.cases", "overlap.outer_stream_was_half_read", "overlap.intact_stream_exact", "overlap.abandoned_cases", "overlap.abandoned_stream_prefix_ok", "overlap.abandoned_stream_closed",
 		"overlap.inner.decrypt-valid", "overlap.inner.decrypt-tampered", "overlap.inner.decrypt-garbage", "overlap.inner.encrypt_ok",
 		"rejected_or_identical.srcerr", "rejected_or_identical.srcerr(unexpected-eof)", "rejected_or_identical.srcerr(wrapped-unexpected-eof)", "rejected_or_identical.srcerr(context-canceled)", "srcerr.surfaced_as_the_injected_error",
@@ -1396,6 +1408,15 @@ func TestCheck(t *testing.T) {
 		}
 		rec.Begin(idx, h.String())
 		runHuge(idx, h)
+	}
+	// forged documents (after the huge cases)
+	for i, f := range forgedPlan() {
+		idx := len(plan) + len(hugePlan()) + i
+		if !mon.Mine(idx) {
+			continue
+		}
+		rec.Begin(idx, f.String())
+		runForged(idx, f)
 	}
 	bases := map[int]*base{}
 	for idx, c := range plan {
